@@ -133,7 +133,14 @@ func (c *Ctx) end() {
 			if len(s) > 12 {
 				s = s[:12]
 			}
-			c.Samples = append(c.Samples, strings.Join(s, " ; "))
+			short := make([]string, len(s))
+			for i, o := range s {
+				if len(o) > 160 {
+					o = o[:100] + " ... " + o[len(o)-50:]
+				}
+				short[i] = o
+			}
+			c.Samples = append(c.Samples, strings.Join(short, " ; "))
 		}
 	}
 }
